@@ -381,6 +381,58 @@ def run(ctx: Context, rep) -> None:
                                         if hterm is not None else "<none>"),
            message="one hash object per configured name, in the configured "
            "order") if not undecided else None
+    # a hash object is made for the call that asked for it: the by-name
+    # factory (the function handing names to hashlib.new) returns
+    # constructor calls only, never an object kept in a module-level or class
+    # collection (two digests computed at the same time, or one name listed
+    # twice, would share one state)
+    rep.rule(
+        "C16.objects",
+        "every return of a function that calls hashlib.new is a call "
+        "expression (a new object per request) and the function stores "
+        "nothing into module-level collections")
+    n_fact = 0
+    for f_ in ctx.repo.all_functions():
+        if isinstance(f_.node, ast.Lambda) or not f_.fq.startswith(
+                "sedpack.io") or not any(
+                    ctx.is_call(f_, c_, "hashlib.new") for c_ in f_.calls()):
+            continue
+        n_fact += 1
+        mod_ = f_.module
+        bad_ = []
+        for n_ in f_.body_nodes():
+            if isinstance(n_, ast.Return) and n_.value is not None and not \
+                    isinstance(n_.value, ast.Call):
+                from sa.norm import expand as _exp16
+                ev_ = _exp16(f_, n_.value)
+                if not isinstance(ev_, ast.Call) or isinstance(
+                        ev_.func, ast.Attribute) and ev_.func.attr in (
+                            "get", "setdefault", "pop", "copy"):
+                    bad_.append((n_, "returns " + short(n_.value, 40)))
+            if isinstance(n_, (ast.Assign, ast.AugAssign, ast.AnnAssign)):
+                for t_ in (n_.targets if isinstance(n_, ast.Assign)
+                           else [n_.target]):
+                    if isinstance(t_, ast.Subscript) and isinstance(
+                            t_.value, ast.Name) and t_.value.id in getattr(
+                                mod_, "globals", {}):
+                        bad_.append((n_, "stores into module-level " +
+                                     t_.value.id))
+            if isinstance(n_, ast.Call) and isinstance(
+                    n_.func, ast.Attribute) and n_.func.attr in (
+                        "setdefault", "append", "add", "update") and \
+                    isinstance(n_.func.value, ast.Name) and \
+                    n_.func.value.id in getattr(mod_, "globals", {}):
+                bad_.append((n_, "stores into module-level " +
+                             n_.func.value.id))
+        for n_, what_ in bad_:
+            rep.ob("C16.objects", False, loc=f_.loc(n_), where=f_.qualname,
+                   construct=what_,
+                   message="a hash object is shared between requests")
+        rep.ob("C16.objects", not bad_, loc=f_.loc(), where=f_.qualname,
+               construct="hash objects are constructed per request",
+               message="by-name hash factory")
+    if n_fact < 1 and not rep.violations:
+        raise AnalysisError("C16.objects: no function calls hashlib.new")
     try:
         gf, disp, kind, acc_name = find_name_dispatch(ctx)
     except AnalysisError:
